@@ -1059,14 +1059,43 @@ class SSeq(Sym):
         at = self.at
         s = SSet.define(name, sort, lambda t_: z3.Exists([i], z3.And(i >= 0, i < self.n, at(i).t == t_)))
         C.assume(s.c <= self.n)
+        # the elements are members (instances of the definition, stated explicitly so that the solver need not guess
+        # the index witness; for a concatenation: the elements of each part)
+        for n_p, at_p in getattr(self, "_parts", [(self.n, at)]):
+            if z3.is_int_value(n_p) and n_p.as_long() <= 8:
+                for j in range(n_p.as_long()):  # a part of concrete length (a Python list literal): ground instances
+                    C.assume(s.a[at_p(z3.IntVal(j)).t])
+            else:
+                C.assume(z3.ForAll([i], z3.Implies(z3.And(i >= 0, i < n_p), s.a[at_p(i).t])))
         return s
 
+    @staticmethod
+    def from_list(lst, kind=list):
+        """a concrete Python list of scalar proxies as a symbolic sequence"""
+        if not lst or not all(isinstance(e, STerm) for e in lst):
+            raise Unsupported("only non-empty lists of scalar proxies can be turned into a symbolic sequence")
+        cls = type(lst[0])
+
+        def at(i):
+            t_ = lst[-1].t
+            for j in range(len(lst) - 2, -1, -1):
+                t_ = z3.If(i == j, lst[j].t, t_)
+            return cls(t_)
+
+        return SSeq(z3.IntVal(len(lst)), at, kind, "list")
+
     def __add__(self, o):
+        if isinstance(o, (list, tuple)):
+            if not o:
+                return self
+            o = SSeq.from_list(list(o))
         if not isinstance(o, SSeq):
             raise Unsupported("sequence + non-sequence")
         sort, cls = self._scalar_sort()
         n1, a, b = self.n, self.at, o.at
-        return SSeq(self.n + o.n, lambda i: cls(z3.If(i < n1, a(i).t, b(i - n1).t)), self.kind, "concat")
+        r = SSeq(self.n + o.n, lambda i: cls(z3.If(i < n1, a(i).t, b(i - n1).t)), self.kind, "concat")
+        r._parts = list(getattr(self, "_parts", [(self.n, self.at)])) + list(getattr(o, "_parts", [(o.n, o.at)]))
+        return r
 
     def __iter__(self):
         raise Unsupported("native iteration over a symbolic sequence")
